@@ -26,7 +26,9 @@ CONSTANTS NH,        \* handles are 1..NH
           V,         \* values stored by set(); 0 is the default-constructed value that operator[] inserts
           MaxOps,    \* bound on the history length
           KeepHist,  \* TRUE: hist is the whole history (model checking / replay); FALSE: only the last call (trace validation)
-          SetMode    \* TRUE: the containers are Sets (all values 1; union/intersection/difference enabled)
+          MapOps,    \* TRUE: the map-only call operator[] (inserting the default value) is enabled
+          SetOps     \* TRUE: the Set-only calls union / intersection / difference are enabled
+                     \* (sets are maps whose values are all 1: MapOps = FALSE, SetOps = TRUE, V = {1})
 
 VARIABLES hb, blk, hist, hz
 vars == <<hb, blk, hist, hz>>
@@ -90,7 +92,7 @@ NewBlock(g, m2, rec) ==
 SetKV(h, k, v) == /\ h \in Live
                   /\ InPlace(h, MapPut(M(h), k, v), [op |-> "set", h |-> h, k |-> k, v |-> v], TRUE)
 \* non-const operator[]: inserts the default value when the key is absent; r is the value the reference denotes
-Index(h, k) == /\ h \in Live /\ ~SetMode
+Index(h, k) == /\ h \in Live /\ MapOps
                /\ LET m2 == IF k \in Dom(M(h)) THEN M(h) ELSE MapPut(M(h), k, 0) IN
                   InPlace(h, m2, [op |-> "index", h |-> h, k |-> k, r |-> m2[k]], TRUE)
 RemoveK(h, k) == /\ h \in Live
@@ -101,18 +103,21 @@ AddMap(h, g) == /\ h \in Live /\ g \in Live
                 /\ InPlace(h, MapMerge(M(h), M(g)), [op |-> "add", h |-> h, g |-> g], TRUE)
 Clone(h, g) == /\ h \in Live /\ g \in H
                /\ NewBlock(g, M(h), [op |-> "clone", h |-> h, g |-> g])
+\* a default-constructed container bound to g (g dead, or live and replaced)
+NewEmpty(g) == /\ g \in H
+               /\ NewBlock(g, Empty, [op |-> "new", h |-> g, g |-> g])
 Dup(h) == /\ h \in Live
           /\ IF RC(hb[h]) = 1
              THEN InPlace(h, M(h), [op |-> "dup", h |-> h], FALSE)
              ELSE NewBlock(h, M(h), [op |-> "dup", h |-> h])
 
 (* set algebra (results are new sets) *)
-Union(h, g2, g) == /\ SetMode /\ h \in Live /\ g2 \in Live /\ g \in H
+Union(h, g2, g) == /\ SetOps /\ h \in Live /\ g2 \in Live /\ g \in H
                    /\ NewBlock(g, MapMerge(M(h), M(g2)), [op |-> "union", h |-> h, g2 |-> g2, g |-> g])
-Inter(h, g2, g) == /\ SetMode /\ h \in Live /\ g2 \in Live /\ g \in H
+Inter(h, g2, g) == /\ SetOps /\ h \in Live /\ g2 \in Live /\ g \in H
                    /\ NewBlock(g, MapRestrict(M(h), Dom(M(g2))), [op |-> "inter", h |-> h, g2 |-> g2, g |-> g])
-Diff(h, g2, g) == /\ SetMode /\ h \in Live /\ g2 \in Live /\ g \in H
-                  /\ NewBlock(g, MapRestrict(M(h), K \ Dom(M(g2))), [op |-> "diff", h |-> h, g2 |-> g2, g |-> g])
+Diff(h, g2, g) == /\ SetOps /\ h \in Live /\ g2 \in Live /\ g \in H
+                  /\ NewBlock(g, MapRestrict(M(h), Dom(M(h)) \ Dom(M(g2))), [op |-> "diff", h |-> h, g2 |-> g2, g |-> g])
 
 (* handles *)
 CopyHandle(h, g) == /\ h \in Live /\ g \in Dead
@@ -133,7 +138,7 @@ DropHandle(h) == /\ h \in Live /\ Cardinality(Live) > 1
 Next == /\ Len(hist) < MaxOps
         /\ \/ \E h \in H, k \in K, v \in V : SetKV(h, k, v)
            \/ \E h \in H, k \in K : Index(h, k) \/ RemoveK(h, k)
-           \/ \E h \in H : Clear(h) \/ Dup(h) \/ DropHandle(h)
+           \/ \E h \in H : Clear(h) \/ Dup(h) \/ DropHandle(h) \/ NewEmpty(h)
            \/ \E h, g \in H : AddMap(h, g) \/ Clone(h, g) \/ CopyHandle(h, g) \/ AssignHandle(h, g)
            \/ \E h, g2, g \in H : Union(h, g2, g) \/ Inter(h, g2, g) \/ Diff(h, g2, g)
 
@@ -174,10 +179,10 @@ Independence ==
             touched == {hb[r.h], hb'[r.h]} \cup (IF "g" \in DOMAIN r THEN {hb'[r.g]} ELSE {})
         IN \A b \in B : (b \notin touched /\ RC(b) > 0 /\ \E h \in H : hb'[h] = b) => blk'[b] = blk[b]]_vars
 \* a clone / set-algebra result never aliases another handle
-CloneFresh == [][(hist' # hist /\ hist' # <<>> /\ hist'[Len(hist')].op \in {"clone", "union", "inter", "diff"}) =>
+CloneFresh == [][(hist' # hist /\ hist' # <<>> /\ hist'[Len(hist')].op \in {"clone", "new", "union", "inter", "diff"}) =>
                    LET r == hist'[Len(hist')] IN \A x \in H \ {r.g} : hb'[x] # hb'[r.g]]_vars
 \* in set mode every stored value is 1
-SetValues == SetMode => \A b \in B : \A k \in Dom(blk[b]) : blk[b][k] = 1
+SetValues == (SetOps /\ ~MapOps) => \A b \in B : \A k \in Dom(blk[b]) : blk[b][k] = 1
 
 -------------------------------------------------------------------------------
 (* observation, emitted with every transition for the replayer *)
@@ -207,6 +212,8 @@ LiveEntries(hbx, blkx) ==
         Sum(T) == IF T = {} THEN 0 ELSE LET b == CHOOSE b \in T : TRUE IN MapLen(blkx[b]) + Sum(T \ {b})
     IN Sum(bs)
 View == <<hb, blk, Len(hist), hz>>
+\* for the insertion-order configurations: every history is a state of its own (all orders of the same calls are emitted)
+ViewHist == <<hb, blk, hist, hz>>
 Emit == PrintT(ToJson([hist |-> hist', exp |-> ObsOf(hb', blk'), pairs |-> PairsOf(hb', blk'),
-                       live |-> LiveEntries(hb', blk'), set |-> IF SetMode THEN 1 ELSE 0, hz |-> hz']))
+                       live |-> LiveEntries(hb', blk'), set |-> IF SetOps THEN 1 ELSE 0, hz |-> hz']))
 ===============================================================================
